@@ -246,7 +246,7 @@ func (g *anyGen) expr(rt *rapid.T, depth int) *tw.Expr {
 	case 7, 8:
 		return tw.Index(sub(), sub())
 	case 9:
-		return tw.Dot(sub(), rapid.SampledFrom([]string{"a", "name", "Name", "len", "x", "inner", "k"}).Draw(rt, "prop"))
+		return tw.Dot(sub(), rapid.SampledFrom([]string{"a", "name", "Name", "len", "x", "inner", "k", "_id", "name_", "first__name", "_", "__x", "a_b", "first_name"}).Draw(rt, "prop"))
 	case 10, 11:
 		n := rapid.IntRange(0, 3).Draw(rt, "nargs")
 		args := make([]*tw.Expr, n)
@@ -284,7 +284,7 @@ func (g *anyGen) leaf(rt *rapid.T) *tw.Expr {
 		}
 		return floatLit(rapid.SampledFrom([]float64{0, 0.5, -1.5, 2.25, 1e10, 123456.789}).Draw(rt, "float"))
 	case 3, 4:
-		return strLit(rt, rapid.SampledFrom([]string{"", "a", "héllo", "日本", "12", "a b c", "<i>", "x,y", "  pad  "}).Draw(rt, "str"))
+		return strLit(rt, rapid.SampledFrom([]string{"", "a", "héllo", "日本", "12", "a b c", "<i>", "x,y", "  pad  ", "_", "a__b", "name_", "_x"}).Draw(rt, "str"))
 	case 5:
 		return tw.Bool(rapid.Bool().Draw(rt, "bool"))
 	case 6:
